@@ -31,7 +31,8 @@ def build_clis(c):
 def overlays():
     """In-package hooks every build of the htool harness needs."""
     from vlib.core import ROOT
-    return {"internal/puregen/gengo/verif_hooks.go": os.path.join(ROOT, "go", "htool", "overlay", "gengo_verif_hooks.go")}
+    return {"internal/puregen/gengo/verif_hooks.go": os.path.join(ROOT, "go", "htool", "overlay", "gengo_verif_hooks.go"),
+            "internal/tlcodegen/verif_htool_hooks.go": os.path.join(ROOT, "go", "htool", "overlay", "tlcodegen_verif_hooks.go")}
 
 
 def harness_env(c, extra=None):
